@@ -2,7 +2,9 @@ package routing
 
 import (
 	"lunar/engine/actions"
+	"lunar/engine/config"
 	lunar_messages "lunar/engine/messages"
+	"lunar/engine/streams"
 
 	"github.com/negasus/haproxy-spoe-go/action"
 )
@@ -15,4 +17,12 @@ func VerifReqActions(args lunar_messages.OnRequest, acts []actions.ReqLunarActio
 
 func VerifRespActions(args lunar_messages.OnResponse, acts []actions.RespLunarAction) action.Actions {
 	return getSPOERespActions(args, acts)
+}
+
+// VerifFlowsEndpointsRequest runs the manager's own computation of the managed-endpoint
+// expressions for a loaded flows engine.
+func VerifFlowsEndpointsRequest(stream *streams.Stream) *config.HAProxyEndpointsRequest {
+	rd := &HandlingDataManager{isStreamsEnabled: true}
+	rd.stream = stream
+	return rd.buildHAProxyFlowsEndpointsRequest()
 }
